@@ -250,8 +250,6 @@ template <class Mesh> void HistRun<Mesh>::op_collapse(R &r, const Op &q) {
     }
 }
 
-// ---------------------------------------------------------------- restart through a file (C06's HIST part): save, load into a new replica
-template <class Mesh> void HistRun<Mesh>::op_restart(R &, const Op &) {}
 
 // ---------------------------------------------------------------- registry invariants (C14)
 template <class Mesh> void HistRun<Mesh>::verify_registry(R &r, int ri, bool deep) {
